@@ -108,7 +108,12 @@ fn search(v: &View, ops: &[ROp], done: u32, reg: Option<ActorId>, memo: &mut Has
         if !minimal {
             continue;
         }
-        let overlapped = (0..n).any(|j| j != i && ops[j].o.begin < ops[i].o.end_or_max() && ops[i].o.begin < ops[j].o.end_or_max());
+        // the registry is one lock for all service types: any registry operation in flight counts
+        let overlapped = v
+            .ops
+            .iter()
+            .filter(|p| matches!(p.what, OpWhat::Reg(..)) && (p.client, p.op) != (ops[i].o.client, ops[i].o.op))
+            .any(|p| p.begin < ops[i].o.end_or_max() && ops[i].o.begin < p.end_or_max());
         if let Some(next) = step(v, reg, &ops[i], overlapped) {
             if search(v, ops, done | (1 << i), next, memo, deepest) {
                 return true;
